@@ -19,6 +19,7 @@ pub mod cycle;
 pub mod c11;
 pub mod c10;
 pub mod c16;
+pub mod c06;
 
 use report::{Evidence, Violation};
 
@@ -76,6 +77,7 @@ fn cmd_check(args: &[String]) -> i32 {
         "C11" => check_c11(seed, tier),
         "C10" => check_c10(seed, tier),
         "C16" => check_c16(seed, tier),
+        "C06" => check_c06(seed, tier),
         "C03" => check_cycle(cycle::Which::C03, seed, tier),
         "C04" => check_cycle(cycle::Which::C04, seed, tier),
         other => {
@@ -188,6 +190,25 @@ fn check_c16(seed: u64, tier: &str) -> i32 {
     report::finish(ev, violations)
 }
 
+fn check_c06(seed: u64, tier: &str) -> i32 {
+    let mut ev = Evidence::new(
+        "C06", tier, seed, "exploration",
+        "the pipeline as separate child processes connected by channels the simulator owns: per program (generated with hostile strings/identifiers, nesting templates          of depth 1..300, the in-repo corpus) one `fml run` per profile and N staged pipelines under configuration tuples {json,lisp,yaml} x {explicit --format incl. aliases          and case variants, format inferred from -o extension / input extension} x parse input {file, stdin} x parse output {-o FILE, -o DIR with derived name, stdout>file,          stdout|pipe} x compile input {file, stdin + --input-format} x compile output {-o FILE, -o DIR, stdout>file, stdout|pipe} x execute input {file, stdin} x {debug, release},          plus the wrapper script; each stage under a seeded transient plan (per-call limits, short reads/writes, EINTR on stdin/stdout/file fds). In-process: each format          reloads to the identical AST. Every staged pipeline is a distinct configuration of channels and faults, so all are non-trivial; distinct = distinct (source digest, tuple).",
+    );
+    ev.assumptions = vec![
+        "stages run one after the other with captured buffers: each stage reads its whole input before producing output, so this explores the behaviours of concurrent processes".into(),
+        "the reference bytecode is the in-process compile of the parsed source by the same build (what `run` compiles)".into(),
+        "a program that `run` itself does not get past parsing/compiling obliges no stage".into(),
+    ];
+    need_shim();
+    let violations = c06::run(seed, tier, &mut ev);
+    ev.extra.insert("components".into(), serde_json::json!({
+        "real": ["the unmodified fml CLI (parse, compile, execute, run) as child processes, debug and release", "the repository's `fml` wrapper script under bash", "kernel files and pipes", "serde_json / serde_lexpr / serde_yaml as linked"],
+        "stub": ["libfmlsim.so: read()/write() outcomes on every stage's fds, getrandom"],
+    }));
+    report::finish(ev, violations)
+}
+
 fn cmd_replay(args: &[String]) -> i32 {
     let path = match args.first() {
         Some(p) => p,
@@ -218,6 +239,7 @@ fn cmd_replay(args: &[String]) -> i32 {
         cycle::ENGINE => cycle::replay(&replay),
         c11::ENGINE => { need_shim(); c11::replay(&replay) }
         c10::ENGINE => { need_shim(); c10::replay(&replay) }
+        c06::ENGINE => { need_shim(); c06::replay(&replay) }
         c16::ENGINE_A => c16::replay_a(&replay),
         c16::ENGINE_B => { need_shim(); c16::replay_b(&replay) }
         c08b::ENGINE_B => { need_shim(); c08b::replay(&replay) }
